@@ -291,6 +291,9 @@ func (p *Parser) parseAtRule() GrammarType {
 			skipWS = true
 		} else if p.prevWS && !skipWS && tt != RightParenthesisToken {
 			p.pushBuf(WhitespaceToken, wsBytes)
+		} else if p.prevComment && !skipWS && 0 < len(p.buf) && isWordToken(p.buf[len(p.buf)-1].TokenType) && isWordToken(tt) {
+			// a comment alone separates two words as well: @media a/**/b is not @media ab
+			p.pushBuf(WhitespaceToken, wsBytes)
 		} else {
 			skipWS = false
 		}
